@@ -1895,6 +1895,15 @@ coap_send_internal(coap_session_t *session, coap_pdu_t *pdu) {
   coap_queue_t *node = coap_new_node();
   if (!node) {
     coap_log_debug("coap_wait_ack: insufficient memory\n");
+    /*
+     * The Confirmable went out and coap_send_pdu() counted it, but it is not
+     * going to be tracked: give its NSTART slot back and let go what waits.
+     */
+    if (session->con_active) {
+      session->con_active--;
+      if (session->state == COAP_SESSION_STATE_ESTABLISHED)
+        coap_session_connected(session);
+    }
     goto error;
   }
 
